@@ -145,3 +145,114 @@ func ExecMDeliver(in []string) []string {
 	_ = strings.Join
 	return out
 }
+
+// sdeliver <mem|file> <recipients> <variant> <rounds>
+//
+// ONE delivery (the real StoreManager.Deliver, real address policy, local naming) whose recipients all
+// map to ONE mailbox: variant 0 = +tags (box+t0@…, box+t1@…), 1 = the same address repeated,
+// 2 = letter-case variants of the local part. Same content, same date for all copies. Every recipient
+// is a delivery of its own: k recipients -> k messages in the mailbox with k distinct ids and k stored
+// events, each carrying the id of its own copy; removing them afterwards gives exactly one deleted
+// event per id. Repeated <rounds> times.
+// Output: err=<failed deliveries> box=<1 if all recipients map to one mailbox> listed=<messages>
+//         ids=<distinct ids listed> stored=<stored events> sids=<distinct ids among them, all listed>
+//         del=<deleted events after removing every listed message> dids=<distinct ids among them>.
+func GenSDeliver(g *vh.Gen) {
+	for _, b := range []string{"mem", "file"} {
+		for v := 0; v <= 2; v++ {
+			for _, k := range []int{2, 3} {
+				g.Emit("sdeliver", b, vh.I(k), vh.I(v), vh.I(1+g.Intn(2)))
+			}
+		}
+	}
+}
+
+// ExecSDeliver runs one case.
+func ExecSDeliver(in []string) []string {
+	backend, k, variant, rounds := in[0], vh.AtoI(in[1]), vh.AtoI(in[2]), vh.AtoI(in[3])
+	host, log := newHost()
+	var store storage.Store
+	var err error
+	storage.Constructors["file"] = file.New
+	storage.Constructors["memory"] = mem.New
+	if backend == "file" {
+		base := os.Getenv("VERIF_WORKDIR")
+		if base == "" {
+			base = os.TempDir()
+		}
+		dirSeq++
+		dir := fmt.Sprintf("%s/fss-%d-%d", base, os.Getpid(), dirSeq)
+		_ = os.RemoveAll(dir)
+		defer os.RemoveAll(dir)
+		if err = os.MkdirAll(dir, 0o770); err == nil {
+			store, err = storage.FromConfig(config.Storage{Type: "file", Params: map[string]string{"path": dir}}, host)
+		}
+	} else {
+		store, err = storage.FromConfig(config.Storage{Type: "memory", Params: map[string]string{}}, host)
+	}
+	if err != nil {
+		return []string{"NEWERR", vh.HS(err.Error())}
+	}
+	conf := &config.Root{MailboxNaming: config.LocalNaming}
+	conf.SMTP.DefaultStore = true
+	mgr := &message.StoreManager{AddrPolicy: &policy.Addressing{Config: conf}, Store: store, ExtHost: host}
+	var rcpts []*policy.Recipient
+	oneBox := true
+	for i := 0; i < k; i++ {
+		addr := "samebox@example.com"
+		switch variant {
+		case 0:
+			addr = fmt.Sprintf("samebox+t%d@example.com", i)
+		case 2:
+			addr = []string{"samebox@example.com", "SameBox@example.com", "SAMEBOX@example.com"}[i%3]
+		}
+		r, e := mgr.AddrPolicy.NewRecipient(addr)
+		if e != nil {
+			return []string{"RCPTERR", vh.HS(e.Error())}
+		}
+		if len(rcpts) > 0 && r.Mailbox != rcpts[0].Mailbox {
+			oneBox = false
+		}
+		rcpts = append(rcpts, r)
+	}
+	box := rcpts[0].Mailbox
+	nerr := 0
+	for n := 0; n < rounds; n++ {
+		src := fmt.Sprintf("Subject: same %d\r\nFrom: a@example.com\r\nTo: many@example.com\r\n\r\nbody %d\r\n", n, n)
+		if e := mgr.Deliver(&policy.Origin{Address: mail.Address{Address: "a@example.com"}}, rcpts, "from verif", []byte(src)); e != nil {
+			nerr++
+		}
+	}
+	_, sto, ok := log.flush(host)
+	if !ok {
+		return []string{"FLUSH-TIMEOUT"}
+	}
+	listed := map[string]bool{}
+	nlisted := 0
+	ms, _ := store.GetMessages(box)
+	for _, m := range ms {
+		listed[m.ID()] = true
+		nlisted++
+	}
+	sids := map[string]bool{}
+	for _, e := range sto {
+		if e.Mailbox == box && listed[e.ID] {
+			sids[e.ID] = true
+		}
+	}
+	for id := range listed {
+		_ = store.RemoveMessage(box, id)
+	}
+	del, _, ok2 := log.flush(host)
+	if !ok2 {
+		return []string{"FLUSH-TIMEOUT"}
+	}
+	dids := map[string]bool{}
+	for _, e := range del {
+		if e.Mailbox == box && listed[e.ID] {
+			dids[e.ID] = true
+		}
+	}
+	return []string{"err=" + vh.I(nerr), "box=" + vh.B(oneBox), "listed=" + vh.I(nlisted), "ids=" + vh.I(len(listed)),
+		"stored=" + vh.I(len(sto)), "sids=" + vh.I(len(sids)), "del=" + vh.I(len(del)), "dids=" + vh.I(len(dids))}
+}
